@@ -498,8 +498,10 @@ Section Modified.
         (* core.py:241 *)
         let edges' := isort _ (edge_le t') (edges tb) in
         let muts2 := isort _ (mut_le t') muts1 in
-        let migs' := isort _ mig_le (migs tb) in
-        (* core.py:242-245 *)
+        (* core.py:242-249: tskit also re-sorts the migrations (see [mig_le]) in sort() and in
+           compute_mutation_times(); since the repair of finding C02-migrations-resorted the
+           input's rows are put back afterwards ([tables.migrations.replace_with(migrations)]) *)
+        let migs' := migs tb in
         let muts3 := finish_mutations t' edges' muts2 in
         (* core.py:250-254 *)
         match (match c_prov_params c with
